@@ -181,8 +181,11 @@ pub fn run(cfg: &Cfg, rep: &mut Report, spec: &Spec) {
     let n = cfg.per_shard(spec.quick, spec.thorough);
     let mut reported = 0;
     for i in 0..n {
-        if i % 16 == 0 && deadline.over() {
-            break;
+        if i % 16 == 0 {
+            if deadline.over() {
+                break;
+            }
+            cfg.checkpoint(rep);
         }
         let profile = &spec.profiles[(i % spec.profiles.len() as u64) as usize];
         let (body, shapes) = gen_program(cfg.seed, cfg.shard, i, profile);
